@@ -237,3 +237,33 @@ def J3(inp, r, op, pos=0):
     return Res(cl, nontrivial=cut < nprim, obs=lambda: dict(op=op, r=r, pos=pos, cut=cut, prims=[w for w, _ in fs.log],
                                                             reopened=len(j2) if exc2 is None else None, exc=show(exc), exc2=show(exc2)),
                vars=dict(op=op, cut=cut, nprim=nprim, pos=pos, r=r))
+
+
+@obligation('J5', props=('C08', 'C06'), quick=[dict(n=n, pos=p) for n in (10, 11, 12) for p in range(0, 4)] + [dict(n=12, pos=12), dict(n=11, pos=6)],
+            thorough=[dict(n=n, pos=p) for n in (10, 11, 12, 20, 21, 22) for p in range(n + 1)], stubs=_STUBS,
+            bounds='n in 10..22 records of size 0 or 7 (the tail-drop code checkpoints every 10 removed records), drop of any tail, one more append, reopen')
+def J5(inp, n, pos):
+    """long tails: dropping any number of records (including exact multiples of the 10-record checkpoint interval) and
+    appending again leaves file and memory journal equal, also after close+reopen."""
+    fs = disk.install_journal(inp.concrete)
+    j = J.FileJournal('jf')
+    ref = J.MemoryJournal()
+    size = (0, 7)[inp.choice('size', 2)]          # concrete: this obligation is about record counts, sizes are J1's subject
+    for i in range(n):
+        d_ = disk.payload(fs, i + 1, size)
+        j.add(d_, i + 1, 0)
+        ref.add(d_, i + 1, 0)
+    _, exc = guard(j.deleteEntriesFrom, pos)
+    ref.deleteEntriesFrom(pos)
+    new = disk.payload(fs, 99, inp.int('newsize', 0, 40))
+    if exc is None:
+        _, exc = guard(j.add, new, pos + 1, 1)
+        ref.add(new, pos + 1, 1)
+    cl = {'no_exception': exc is None}
+    if exc is None:
+        cl['same_as_memory_journal'] = _journal_equals(j, ref)
+        j2, exc2 = guard(J.FileJournal, 'jf')
+        cl['reopen_no_exception'] = exc2 is None
+        if exc2 is None:
+            cl['reopened_same_as_memory_journal'] = _journal_equals(j2, ref)
+    return Res(cl, nontrivial=(n - pos) % 10 == 0 and pos < n, obs=lambda: dict(n=n, pos=pos, removed=n - pos, exc=show(exc)))
